@@ -790,7 +790,7 @@ theorem rinv_setRef {st st' : RState} (h : RInv st) (p : Path) (n : String) (t :
     split at hop
     · cases hop
     · dsimp only at hop
-      cases hg : setRefGuarded st.mroOf st.exist (st.definedRef p n).isSome m p t (st.takers (st.define p n t m) p n) with
+      cases hg : setRefGuarded st.mroOf st.exist (st.ref p n).isSome m p t (st.takers (st.define p n t m) p n) with
       | none => rw [hg] at hop; cases hop
       | some out =>
         rw [hg] at hop
@@ -964,6 +964,25 @@ theorem rinv_setRef {st st' : RState} (h : RInv st) (p : Path) (n : String) (t :
                   exact definedRef_of_ref_eq (hst1off b k (Or.inl hbp))
               · exact firstDefiner_congr rfl (fun b _ => definedRef_of_ref_eq (hst1off b k (Or.inr hk)))
 
+/-! ### cells: only what exists changes -/
+
+theorem rinv_cells {st : RState} (h : RInv st) (f : Path → List String) : RInv { st with cells := f } :=
+  ⟨⟨h.allMro, h.outside, h.basesIn, h.tree, h.clean⟩, h.rebound⟩
+
+theorem rinv_newCells {st st' : RState} (h : RInv st) (p : Path) (c : String) (hop : st.newCells p c = some st') :
+    RInv st' := by
+  unfold RState.newCells at hop
+  split at hop
+  · cases hop
+  · cases hop; exact rinv_cells h _
+
+theorem rinv_delCells {st st' : RState} (h : RInv st) (p : Path) (c : String) (hop : st.delCells p c = some st') :
+    RInv st' := by
+  unfold RState.delCells at hop
+  split at hop
+  · cases hop
+  · cases hop; exact rinv_cells h _
+
 /-! ### every operation, every history -/
 
 theorem rinv_step (st : RState) (op : ROp) (h : RInv st) : RInv (st.step op) := by
@@ -974,6 +993,8 @@ theorem rinv_step (st : RState) (op : ROp) (h : RInv st) : RInv (st.step op) := 
     simp only [Option.getD_some]
     cases op with
     | newSpace parent name bases cells => exact rinv_newSpace h parent name bases cells hop
+    | newCells p c => exact rinv_newCells h p c hop
+    | delCells p c => exact rinv_delCells h p c hop
     | setRef p n t m => exact rinv_setRef h p n t m hop
     | delRef p n => exact rinv_delRef h p n hop
     | addBase p b => exact rinv_addBase h p b hop
